@@ -32,6 +32,24 @@ pub fn mutate(data: &mut Vec<u8>, m: &str) -> Option<()> {
         }
     } else if let Some(h) = m.strip_prefix("app=") {
         data.extend_from_slice(&unhex(h)?);
+    } else if let Some(x) = m.strip_prefix("tlvlen=") {
+        // tlvlen=<tag>:<hex16>: in a handshake datagram (marker, salt, key hash, TLV parts) overwrite the length field of the first part with that tag
+        let (tag, v) = x.split_once(':')?;
+        let tag: u8 = tag.parse().ok()?;
+        let v = unhex(v)?;
+        if v.len() != 2 {
+            return None;
+        }
+        let mut pos = 9;
+        while pos + 3 <= data.len() && data[pos] != 0 {
+            let len = ((data[pos + 1] as usize) << 8) | data[pos + 2] as usize;
+            if data[pos] == tag {
+                data[pos + 1] = v[0];
+                data[pos + 2] = v[1];
+                break;
+            }
+            pos += 3 + len;
+        }
     } else if let Some(h) = m.strip_prefix("endhex=") {
         // overwrite the last bytes (a signature, an authentication tag) with the given ones
         let b = unhex(h)?;
